@@ -26,7 +26,9 @@ CLAIMED = {
         "text": "Bounded-exhaustive over labelled inputs: quick <=3 object x <=2 species leaves x all 15 arrangements of <=3 families "
                 "(tuples up to family renaming, inconsistent orders kept) + prescribed root orders; thorough adds <=3x<=3x3 families, "
                 "4x<=3x2 families, 4x<=2x subsequences of abc, each with its coherent cost menu, ext_spfs and base_spfs, ALL and ANY. "
-                "quick also 4-leaf chains on one species x subsequences of abc, and a session slice (one input object updated in place). "
+                "quick also 4-leaf chains on one species x subsequences of abc, prescribed roots with a family no leaf carries, hgt = 0, and session "
+                "slices (one input object updated in place, with and without a prescribed root). Input presentation varies with the input: leaf "
+                "dictionaries in three orders, syntenies typed as lists / tuples, prefix-related multi-character family names, same-label ancestors. "
                 "Oracle: Bellman over (species, subsequence) for every compatible root order; base: LCA mapping fixed.",
         "design_ref": "6 (C02), 4.2-4.4, 5",
         "note": "Trusted: refmodel/ordered.py (cross-validated against brute force in selftest). Coherent cost region only; "
@@ -38,7 +40,7 @@ CLAIMED = {
         "text": "Bounded-exhaustive over unordered labelled inputs: quick <=3x<=3 leaves x all subsets of 3 families and 4x<=2x2 families; "
                 "plus chains of 5 leaves on one species x 3 families and chains of 4 leaves on a species cherry x 3 families; "
                 "thorough adds 4x<=3x2, 4x<=2x4 families, 5x<=2x2. Oracle searches EVERY admissible labelling (brute force <=4 leaves, "
-                "Bellman at 5), so the solver's restriction to the LCA/INHERIT labellings is itself decided on these slices. Session slice: one "
+                "plus every 4-leaf object on 3 species leaves with one family; Bellman at 5), so the solver's restriction to the LCA/INHERIT labellings is itself decided on these slices. Session slice: one "
                 "input object per shape pair (<=3x<=3 leaves, 2 families) updated in place.",
         "design_ref": "6 (C03), 4.2-4.4, 5",
         "note": "Trusted: refmodel/unordered.py (brute force <-> Bellman cross-validated). Coherent cost region only; "
@@ -109,7 +111,8 @@ CLAIMED = {
                 "menu and thl / ext_spfs / base_spfs / superdtl / base_uspfs, the ALL result is compared with the result on every transformation of a "
                 "finite menu (single-node child swaps, mirror, 3 node renamings, 2 family renamings, outgroup on either side, repetition on the same "
                 "object and on a fresh one, scaling x2/x3, each unit cost +1); plus a fixed corpus solved in fresh interpreters under "
-                "PYTHONHASHSEED 0..3 with byte-identical canonical output.",
+                "PYTHONHASHSEED 0..3 with byte-identical canonical output. Further transformations: leaf dictionaries written in another order, "
+                "children swapped in place on the live trees with a new LCA structure, prices doubled in place on the same input object.",
         "design_ref": "6 (C09), 7",
         "note": "No oracle needed (metamorphic relations). Object-address-dependent iteration order is not controllable; results compared as sets.",
         "technique": "bounded-exhaustive enumeration of inputs x finite transformation menu with metamorphic oracle; enumerated hash seeds in fresh processes",
@@ -119,7 +122,8 @@ CLAIMED = {
         "text": "Bounded-exhaustive differential check between the seven algorithms on every consistent labelled input of the slices "
                 "(quick O3x2x3; thorough O3x3x3, O4x3x2) and on every single-family labelling of the P-slices (quick P4x3; thorough P4x4, 5x<=3), "
                 "coherent cost menu (with hgt < dup and hgt = 0), both policies: ext <= base, unordered <= ordered, thl <= lca (= at hgt=inf), single family: ext_spfs = superdtl = thl and "
-                "base_spfs = base_uspfs = lca.",
+                "base_spfs = base_uspfs = lca; plus thl <= lca on 3-leaf objects over 6-leaf species trees, thl = superdtl on 5-leaf single-family "
+                "inputs at hgt = 2*dup, 4- and 5-leaf chains on one species.",
         "design_ref": "6 (C10)",
         "note": "No oracle: compares the implementations' own cost() values (C06 validates those). Coherent cost region only.",
         "technique": "bounded-exhaustive enumeration of inputs x configurations with differential (cross-algorithm) oracle",
@@ -131,7 +135,8 @@ CLAIMED = {
                 "ordered labelling on <=2 families, crossed with 5 naming schemes (digits, underscores, O#/S# look-alikes, names differing only by case), a colour menu on both trees "
                 "(all subsets of <=3 object / <=2 species nodes on small trees, root and nested colours) and a float-infinite transfer cost; trees, "
                 "mappings, syntenies, flag, events, cost compared, and to_dict() of the copy reproduced verbatim on the listed fields; every object is "
-                "serialised a second time after an in-place edit of its trees and costs.",
+                "serialised a second time after an in-place edit of its trees and costs; multifurcating inputs (<= 4 / 5 leaves) for child order; "
+                "unordered labellings also typed as unsorted lists; a parent and child with the same colour; explicit zero costs.",
         "design_ref": "6 (C11)",
         "note": "Premise: unique node names. The embedded input's leaf_syntenies of an output is outside the listed fields and not compared.",
         "technique": TECH_E2,
@@ -146,7 +151,9 @@ CLAIMED = {
                 "numbering, cost() of each parsed-back object = printed minimum, all contains any, draw accepts each object in both orientations, "
                 "status 1 + empty output without syntenies. Multifurcating input files (a polytomy in either tree, <=3x<=3 leaves, thorough 4-leaf "
                 "objects with one ternary node) for ext_spfs / superdtl: binary output trees, input clades and their names kept, new ancestors numbered "
-                "by the reference pre-order rule, parse-back cost = printed minimum, all contains any, draw accepts.",
+                "by the reference pre-order rule, parse-back cost = printed minimum, all contains any, draw accepts. Cost options include an "
+                "optimum needing > 6 significant digits, a fraction and a zero unit cost; plain algorithms are also run on files that carry "
+                "syntenies; species names may contain underscores; 5-leaf trees for the numbering order.",
         "design_ref": "6 (C12)",
         "note": "Trusted: the in-process driver (conformance-checked against subprocess runs each run), the stub TeX measurer, ete3's Newick parser.",
         "technique": TECH_E2,
@@ -158,7 +165,8 @@ CLAIMED = {
                 "it maps to with the model's event kind, per-species loss counts equal to the model's, transferred child on the right; the TikZ text "
                 "holds the same numbers of event nodes, loss markers and transfer arrows, each arrow ending at the anchor of the transferred child; "
                 "the stub asserts one measured box per branch. Operation histories: every ordered pair of distinct valid mappings of one input "
-                "(<=3x<=3, thorough <=4x<=3) drawn one after the other on the SAME tree objects.",
+                "(<=3x<=3, thorough <=4x<=3) drawn one after the other on the SAME tree objects; nameless object ancestors; 5-leaf chains on two "
+                "species (four events of one kind).",
         "design_ref": "6 (C13)",
         "note": "Trusted: refmodel/picture.py loss-location rule; stub measurer instead of TeX; the text is scanned, not typeset.",
         "technique": TECH_E2,
@@ -168,7 +176,8 @@ CLAIMED = {
         "text": "Same reconciliations as C13 x 6 stub size functions x 13 DrawParams settings (each numeric layout parameter at 0.5 and 40, all small, "
                 "all large), menus rotated over the inputs: finite coordinates, sibling boxes disjoint and inside the parent's, trunks pairwise "
                 "disjoint, every referenced anchor/branch present (direct lookup and by rendering), horizontal layout = transpose of the vertical "
-                "layout computed with width/height-swapped sizes (1e-9), repeated computation identical.",
+                "layout computed with width/height-swapped sizes (1e-9), repeated computation identical - on fresh objects, on the same object, and "
+                "across orientations on one object.",
         "design_ref": "6 (C14)",
         "note": "Continuous parameters are covered on finite menus only. A first version also demanded trunks/event boxes inside the species box; "
                 "that is not in the statement and was removed (DESIGN 9.4).",
@@ -199,7 +208,7 @@ CLAIMED = {
     "C17": {
         "category": "exploration",
         "text": "Exhaustive over all rooted plane trees of any arity with <= 9 (quick) / 11 (thorough) nodes built through the ete3 API (plus edit "
-                "histories: structure built, the same tree object edited by every subtree move / leaf addition / removal, rebuilt; <= 7 / 8 nodes; structures of a tree and of its subtrees alive together): every "
+                "histories: structure built, the same tree object edited by every subtree move / leaf addition / removal, rebuilt; <= 7 / 8 nodes; structures of a tree and of its subtrees alive together; nameless nodes): every "
                 "node, ordered pair and ordered triple for lca / is_ancestor_of / is_strict_ancestor_of / is_comparable / level / distance against "
                 "parent-chain definitions; every array of length <= 11 / 13 over {0,1,2} x every (start, stop) pair for RangeMinQuery.",
         "design_ref": "6 (C17)",
@@ -210,7 +219,7 @@ CLAIMED = {
         "category": "exploration",
         "text": "Exhaustive over all (child != 0, parent) mask pairs up to 11 (quick) / 13 (thorough) bits x both end modes against an independent "
                 "run counter, and all sequences of distinct elements up to length 11 / 13 with all their subsequences (three element alphabets) "
-                "for the mask <-> subsequence round trip; one mutable parent sequence rearranged in place through every permutation (<= 6 / 7 elements).",
+                "(one of them with unhashable elements) for the mask <-> subsequence round trip; one mutable parent sequence rearranged in place through every permutation (<= 6 / 7 elements).",
         "design_ref": "6 (C18)",
         "note": "Trusted: refmodel/graphs.py:lost_runs_mask.",
         "technique": TECH_E2,
@@ -219,7 +228,8 @@ CLAIMED = {
         "category": "exploration",
         "text": "Exhaustive over all 66 067 digraphs on <= 4 vertices (self-loops included), loop-free digraphs on 5 vertices (<= 5 edges quick, "
                 "all 2^20 thorough) and the precedence graphs the ordered solver builds for every tuple of <= 3 (4) leaf syntenies: toposort_all "
-                "= permutation filter as a multiset, toposort returns a member iff one exists.",
+                "= permutation filter as a multiset, toposort returns a member iff one exists; the null graph; one graph object (shared successor "
+                "sets) used by toposort, toposort_all and toposort again without being modified.",
         "design_ref": "6 (C19)",
         "note": "Trusted: refmodel/graphs.py:topo_orders (permutation filtering).",
         "technique": TECH_E2,
@@ -230,7 +240,7 @@ CLAIMED = {
                 "fixpoint thorough), real (parent, rank, groups) paired with the naive partition, find/len/to_list/unite result/binary() checked in "
                 "every state, each transition replayed on a fresh object. Triples/supertrees: exhaustive over all labelled binary trees on <= 5 (6) "
                 "leaves, all 4096 subsets of the triples on 4 leaves (and <= 3 triples on 5 leaves), all pairs of binary trees on overlapping leaf "
-                "sets within 5 labels.",
+                "sets within 5 labels (also passed as a generator / map object); ancestors unnamed, freshly named, same-labelled or named like a leaf.",
         "design_ref": "6 (C20), 3 (E1 explorer)",
         "note": "Trusted: refmodel/graphs.py (clade-based display test, two-block coarsenings), ete3.",
         "technique": TECH_E1 + "; bounded-exhaustive enumeration of trees and triple sets for the triple routines",
